@@ -156,8 +156,13 @@ class String(Object, str):
 
     def __new__(cls, s=None, brackets=None):
         value = super().__new__(cls, s)
-        if brackets is not None and f"]{brackets}]" in value:
-            raise ValueError(f"Syntactically illegal bracket string: {s!r}")
+        if brackets is not None:
+            # The reader takes the first `]brackets]` as the end of the
+            # string. Check that it isn't found before the end of `value`,
+            # including when `value` ends with the start of the delimiter.
+            closer = f"]{brackets}]"
+            if (value + closer).index(closer) != len(value):
+                raise ValueError(f"Syntactically illegal bracket string: {s!r}")
         value.brackets = brackets
         return value
 
